@@ -211,22 +211,86 @@ func (c *Ctx) reinlineRule(reach []*core.FuncInfo) {
 			continue
 		}
 		info := c.info(fi)
-		for _, call := range calls(fi.Decl.Body) {
-			callee := c.P.CalleeAny(fi, call)
-			if callee == nil || callee.Name() != "UpdateRefWithSchema" || callee.Pkg() == nil || !strings.HasSuffix(callee.Pkg().Path(), "/replace") || len(call.Args) != 3 {
+		for _, wcall := range calls(fi.Decl.Body) {
+			callee := c.P.CalleeAny(fi, wcall)
+			if callee == nil || callee.Name() != "UpdateRefWithSchema" || callee.Pkg() == nil || !strings.HasSuffix(callee.Pkg().Path(), "/replace") || len(wcall.Args) != 3 {
 				continue
 			}
-			if !core.IsSpecType(info.TypeOf(call.Args[0]), "Swagger") {
+			if !core.IsSpecType(info.TypeOf(wcall.Args[0]), "Swagger") {
 				continue
 			}
 			n++
-			ev := &reinEval{c: c, fi: fi, info: info, key: call.Args[1], sch: call.Args[2]}
+			ok, why := c.reinlineAt(fi, wcall, wcall.Args[1], wcall.Args[2])
+			at := wcall
+			if !ok && strings.HasPrefix(why, "no assignment to the returned flag") {
+				// the write lives in a helper that only reports what it did: the condition is computed by its caller
+				wi := c.info(fi)
+				for _, caller := range reach {
+					csig := caller.Obj.Type().(*types.Signature)
+					if csig.Results().Len() < 1 || !core.IsBool(csig.Results().At(0).Type()) || caller == fi {
+						continue
+					}
+					for _, cc := range calls(caller.Decl.Body) {
+						if c.P.StaticCallee(caller, cc) != fi.Obj {
+							continue
+						}
+						// the key and the schema of the write, as expressions of the caller
+						mapArg := func(e ast.Expr) ast.Expr {
+							id := rootIdent(e)
+							if id == nil {
+								return nil
+							}
+							idx, isParam := c.paramIndexOf(fi, core.ObjOf(wi, id))
+							if !isParam || idx >= len(cc.Args) {
+								return nil
+							}
+							rest := strings.TrimPrefix(exprStr(core.Unparen(e)), id.Name)
+							if rest == "" {
+								return cc.Args[idx]
+							}
+							px, err := parser.ParseExpr(exprStr(cc.Args[idx]) + rest)
+							if err != nil {
+								return nil
+							}
+							return px
+						}
+						k2, s2 := mapArg(wcall.Args[1]), mapArg(wcall.Args[2])
+						if k2 == nil || s2 == nil {
+							continue
+						}
+						if ok2, why2 := c.reinlineAt(caller, cc, k2, s2); ok2 {
+							ok, why = true, ""
+						} else if !strings.HasPrefix(why2, "no assignment to the returned flag") {
+							why = why2 + " (in " + caller.Name() + ")"
+						}
+					}
+				}
+			}
+			c.S.Decide(ok, "C03", "GUARD-REINLINE", fi.QName(), c.P.Pos(at.Pos()),
+				"the caller is told (returned flag) exactly when a complex schema was put back inline at a place that is not a top-level definition",
+				why+": a complex schema re-inlined below a definition is not named again and stays inline after a full flatten")
+		}
+	}
+	if n < 1 {
+		c.S.Note("GUARD-REINLINE: no flag-returning phase writes a schema back inline (one on the pinned tree: stripOAIGenForRef)")
+	}
+}
+
+// reinlineAt decides, for a write (or a call that performs it) at `call` in fi with the given key and schema
+// expressions, whether the flag fi returns is raised exactly when the schema is complex and the key is not a
+// top-level definition.
+func (c *Ctx) reinlineAt(fi *core.FuncInfo, call *ast.CallExpr, keyExpr, schExpr ast.Expr) (bool, string) {
+	info := c.info(fi)
+	{
+		{
+			ev := &reinEval{c: c, fi: fi, info: info, key: keyExpr, sch: schExpr}
 			// the conditions under which the returned flag is raised after the write
 			type raise struct {
 				expr    ast.Expr
 				flag    types.Object
 				assign  bool // flag = <expr> / return <expr>: the old value of the flag must survive
 				flagSel ast.Expr
+				flags   map[types.Object]bool
 			}
 			var raises []raise
 			ast.Inspect(fi.Decl.Body, func(nd ast.Node) bool {
@@ -236,7 +300,7 @@ func (c *Ctx) reinlineRule(reach []*core.FuncInfo) {
 						return true
 					}
 					if ev.mentionsComplex(x.Rhs[0], 0) {
-						raises = append(raises, raise{x.Rhs[0], core.ObjOf(info, x.Lhs[0]), true, nil})
+						raises = append(raises, raise{x.Rhs[0], core.ObjOf(info, x.Lhs[0]), true, nil, nil})
 					}
 				case *ast.IfStmt:
 					if x.Pos() < call.Pos() || x.Init != nil || !ev.mentionsComplex(x.Cond, 0) {
@@ -245,7 +309,7 @@ func (c *Ctx) reinlineRule(reach []*core.FuncInfo) {
 					for _, bs := range x.Body.List {
 						if as, ok := bs.(*ast.AssignStmt); ok && len(as.Lhs) == 1 && len(as.Rhs) == 1 && (c.flowsToReturn(fi, as.Lhs[0]) || c.fieldFlowsToReturn(fi, as.Lhs[0])) {
 							if tv, isC := info.Types[as.Rhs[0]]; isC && tv.Value != nil && tv.Value.String() == "true" {
-								raises = append(raises, raise{x.Cond, nil, false, nil})
+								raises = append(raises, raise{x.Cond, nil, false, nil, nil})
 							}
 						}
 					}
@@ -257,10 +321,12 @@ func (c *Ctx) reinlineRule(reach []*core.FuncInfo) {
 					// the flag: a bool local of the expression that is not itself the complexity result
 					var flag types.Object
 					var flagSel ast.Expr
+					flags := map[types.Object]bool{}
 					ast.Inspect(x.Results[0], func(m ast.Node) bool {
 						if id, ok := m.(*ast.Ident); ok {
 							if o, isVar := info.Uses[id].(*types.Var); isVar && core.IsBool(o.Type()) && !ev.mentionsComplex(id, 0) {
 								flag = o
+								flags[o] = true
 							}
 						}
 						// a bool member of a state object
@@ -272,13 +338,13 @@ func (c *Ctx) reinlineRule(reach []*core.FuncInfo) {
 						}
 						return true
 					})
-					raises = append(raises, raise{x.Results[0], flag, true, flagSel})
+					raises = append(raises, raise{x.Results[0], flag, true, flagSel, flags})
 				}
 				return true
 			})
 			ok, why := false, "no assignment to the returned flag after the write looks at isAnalyzedAsComplex() of the schema written"
 			for _, r := range raises {
-				ev.flag, ev.flagSel, ev.placeBad, ev.dirSeen = r.flag, r.flagSel, "", 0
+				ev.flag, ev.flagSel, ev.flags, ev.placeBad, ev.dirSeen = r.flag, r.flagSel, r.flags, "", 0
 				good, decided := true, true
 				ev.flagVal = false
 				for _, dirEq := range []bool{false, true} {
@@ -322,13 +388,8 @@ func (c *Ctx) reinlineRule(reach []*core.FuncInfo) {
 					break
 				}
 			}
-			c.S.Decide(ok, "C03", "GUARD-REINLINE", fi.QName(), c.P.Pos(call.Pos()),
-				"the caller is told (returned flag) exactly when a complex schema was put back inline at a place that is not a top-level definition",
-				why+": a complex schema re-inlined below a definition is not named again and stays inline after a full flatten")
+			return ok, why
 		}
-	}
-	if n < 1 {
-		c.S.Note("GUARD-REINLINE: no flag-returning phase writes a schema back inline (one on the pinned tree: stripOAIGenForRef)")
 	}
 }
 
@@ -341,7 +402,8 @@ type reinEval struct {
 	info     *types.Info
 	key, sch ast.Expr // the key and the schema of the write, as expressions of fi
 	flag     types.Object
-	flagSel  ast.Expr // the flag when it is a bool member of a state object (l.replacedWithComplex)
+	flags    map[types.Object]bool // further independent flags OR-ed into the result (what other steps found)
+	flagSel  ast.Expr              // the flag when it is a bool member of a state object (l.replacedWithComplex)
 	flagVal  bool
 	placeBad string
 	dirSeen  int
@@ -474,6 +536,9 @@ func (r *reinEval) eval(e ast.Expr, dirEq, cx bool, depth int) (bool, bool) {
 		if r.flag != nil && core.ObjOf(r.info, x) == r.flag {
 			return r.flagVal, true
 		}
+		if o := core.ObjOf(r.info, x); o != nil && r.flags[o] {
+			return r.flagVal, true
+		}
 		if tv, ok := r.info.Types[x]; ok && tv.Value != nil {
 			return tv.Value.String() == "true", true
 		}
@@ -566,6 +631,21 @@ func (r *reinEval) evalHelper(call *ast.CallExpr, dirEq, cx bool, depth int) (bo
 				}
 				if r.same(call.Args[i], r.sch) {
 					sub.sch = nm
+				}
+				// the schema (or the key) reached through a member of the argument: f(…, rec, …) with the write on rec.schema
+				for _, tgt := range []struct {
+					e   ast.Expr
+					set func(ast.Expr)
+				}{{r.sch, func(x ast.Expr) { sub.sch = x }}, {r.key, func(x ast.Expr) { sub.key = x }}} {
+					if tgt.e == nil {
+						continue
+					}
+					t, a := r.norm(tgt.e, 0), r.norm(call.Args[i], 0)
+					if strings.HasPrefix(t, a+".") {
+						if px, err := parser.ParseExpr(nm.Name + strings.TrimPrefix(t, a)); err == nil {
+							tgt.set(px)
+						}
+					}
 				}
 			}
 			i++
@@ -1453,13 +1533,7 @@ func (c *Ctx) isCanonicalRef(fi *core.FuncInfo, ref ast.Expr, site *ast.CallExpr
 		// X built as a whole: X := T{Ref: R, TopLevel: <top-level test of R>, …}, directly or by a constructor whose
 		// single result is such a literal
 		if xo := core.ObjOf(info, sel.X); xo != nil {
-			if defs := c.P.Locals(fi).Defs[xo]; len(defs) == 1 && defs[0].Kind == core.DefAssign && defs[0].Expr != nil {
-				lfi, lit := fi, core.Unparen(defs[0].Expr)
-				if call, isCall := lit.(*ast.CallExpr); isCall {
-					if g := c.singleReturn(fi, call); g != nil {
-						lfi, lit = g.fi, core.Unparen(g.e)
-					}
-				}
+			if lfi, lit := c.recordOrigin(fi, sel.X, 0); lit != nil {
 				if cl, isLit := lit.(*ast.CompositeLit); isLit {
 					var refVal, topVal ast.Expr
 					for _, el := range cl.Elts {
@@ -1487,6 +1561,72 @@ func (c *Ctx) isCanonicalRef(fi *core.FuncInfo, ref ast.Expr, site *ast.CallExpr
 		return true, "the $ref already at this key with its document part stripped (its fragment is unchanged: canonical exactly when it was)"
 	}
 	return false, ""
+}
+
+// recordOrigin follows a record variable to the composite literal that built it: through single-definition locals,
+// the first result of a call (x, err := f()), single-return constructors, and functions all of whose substantive
+// returns (those that do not return a non-nil error) yield the same kind of value.
+func (c *Ctx) recordOrigin(fi *core.FuncInfo, e ast.Expr, depth int) (*core.FuncInfo, ast.Expr) {
+	if depth > 5 || e == nil {
+		return nil, nil
+	}
+	info := c.info(fi)
+	e = core.Unparen(e)
+	switch x := e.(type) {
+	case *ast.CompositeLit:
+		return fi, x
+	case *ast.UnaryExpr:
+		if x.Op == token.AND {
+			return c.recordOrigin(fi, x.X, depth+1)
+		}
+	case *ast.Ident:
+		o := core.ObjOf(info, x)
+		if o == nil {
+			return nil, nil
+		}
+		defs := c.P.Locals(fi).Defs[o]
+		if len(defs) != 1 || defs[0].Expr == nil {
+			return nil, nil
+		}
+		if defs[0].Kind == core.DefAssign || defs[0].Kind == core.DefMulti && defs[0].Index == 0 {
+			return c.recordOrigin(fi, defs[0].Expr, depth+1)
+		}
+	case *ast.CallExpr:
+		g := c.P.Funcs[c.P.StaticCallee(fi, x)]
+		if g == nil || g.Decl == nil || g.Decl.Body == nil {
+			return nil, nil
+		}
+		ginfo := c.info(g)
+		var ofi *core.FuncInfo
+		var lit ast.Expr
+		okAll := true
+		ast.Inspect(g.Decl.Body, func(n ast.Node) bool {
+			if _, isLit := n.(*ast.FuncLit); isLit {
+				return false
+			}
+			ret, isRet := n.(*ast.ReturnStmt)
+			if !isRet || len(ret.Results) == 0 {
+				return true
+			}
+			// error returns carry no record
+			if last := ret.Results[len(ret.Results)-1]; len(ret.Results) > 1 && core.IsErrorType(ginfo.TypeOf(last)) && !core.IsNilExpr(ginfo, last) {
+				return true
+			}
+			f2, l2 := c.recordOrigin(g, ret.Results[0], depth+1)
+			if l2 == nil {
+				okAll = false
+				return true
+			}
+			if lit == nil {
+				ofi, lit = f2, l2
+			}
+			return true
+		})
+		if okAll && lit != nil {
+			return ofi, lit
+		}
+	}
+	return nil, nil
 }
 
 // refStringSource: the expression (through single-assignment locals) is <x>.String() on a spec.Ref, possibly inside
